@@ -67,6 +67,7 @@ class Checker:
         self.assumptions: List[str] = []
         self.functions_analysed = set()
         self._decorated = {}
+        self._touched_fis = {}
         self.t0 = time.time()
 
     # ------------------------------------------------------------ recording
@@ -79,6 +80,7 @@ class Checker:
             self.functions_analysed.add(getattr(fi, "qualname", str(fi)))
             if getattr(getattr(fi, "node", None), "decorator_list", None):
                 self._decorated[getattr(fi, "qualname", str(fi))] = fi
+            self._touched_fis[getattr(fi, "qualname", str(fi))] = fi
 
     def ob(self, rule, fi, stmt, verdict, detail="", path="", nontrivial=True, file=None, function=None, line=None):
         if fi is not None:
@@ -142,8 +144,20 @@ class Checker:
             if rule is not None:
                 check_decorators(self, rule, [fi])
 
+    def _shared_mutable_guard(self):
+        from rules.sem import check_shared_mutables
+
+        for qn, fi in sorted(self._touched_fis.items()):
+            if getattr(fi, "node", None) is None or getattr(fi, "module", None) is None:
+                continue
+            fn = qn.split(":", 1)[-1]
+            rule = next((o.rule for o in self.obs if o.function == fn), None)
+            if rule is not None:
+                check_shared_mutables(self, rule, fi)
+
     def finish(self, write=True) -> int:
         self._decorator_guard()
+        self._shared_mutable_guard()
         kf = load_known_findings()
         open_k = [k for k in kf.get("open", []) if k.get("property") == self.pid]
         viol = [o for o in self.obs if o.verdict == VIOLATED]
